@@ -9,7 +9,7 @@ EXTENDS Astrolabe
 
 SmallR == <<3, 2, 2, 2, 2, 2>>
 OffsQuick == {-11, -1, 0, 5, 11}
-OffsFull == -11..11
+OffsFull == {-11, -7, -1, 0, 1, 5, 11}
 CountsQuick == {0, 1, 2, 13, 100}
 CountsFull == {0, 1, 2, 3, 7, 12, 13, 36, 100, 700}
 SubQuick == {0, 5, 7}
